@@ -114,8 +114,11 @@ def make_spec(name, pattern, layout, levels):
                                        VARS + p.get('extra', [])),
                          'extra': p.get('extra', []),
                          'only': p.get('only', False)})
-    return {'simname': name, 'grouped': grouped, 'proc': proc, 'ghost': 1,
+    spec = {'simname': name, 'grouped': grouped, 'proc': proc, 'ghost': 1,
             'variables': VARS, 'shapes': SHAPES, 'restarts': restarts}
+    if '+tl' in pattern:
+        spec['timelevels'] = 2    # IOHDF5::output_all_timelevels
+    return spec
 
 
 def build_pristine(cfg, root):
@@ -643,6 +646,7 @@ def plans(tier):
     for lay in [(True, True), (True, False), (False, False)]:
         cfgs.append((('sim', 'contained_names', lay, 1), 'full', 3))
     cfgs.append((('sim', 'dead_restart', lay0, 2), 'full', 3))
+    cfgs.append((('sim', 'two+tl', lay0, 2), 'full', 3))
     cfgs.append((('sim', 'three+noise', lay0, 2), 'full', 3))
     cfgs.append((('sim', 'singles+noise', (True, True), 1), 'full', 3))
     if tier == 'thorough':
